@@ -189,11 +189,42 @@ func c05r3(p *Prog, r *Reporter) {
 		name := p.FuncName(fn)
 		// facts
 		var initFromOld, resetUnderLoop, panicNoComp, panicNotRel bool
-		var targetCell *ssa.Alloc
-		for _, b := range fn.Blocks {
-			for _, ins := range b.Instrs {
-				if a, ok := ins.(*ssa.Alloc); ok && a.Comment == "target" {
-					targetCell = a
+		// the target cell: the Entity-typed local whose value is passed to the destination finder;
+		// the mask cell: the Mask-typed local passed to the exchange-mask function
+		var targetCell, maskCell *ssa.Alloc
+		for _, site := range callsIn(fn) {
+			if isCallTo(site, foc) {
+				for _, a := range site.Common().Args {
+					if u, ok := a.(*ssa.UnOp); ok && u.Op == token.MUL {
+						if al, ok := u.X.(*ssa.Alloc); ok && isEntityType(deref(al.Type())) {
+							targetCell = al
+						}
+					}
+				}
+			}
+			if isCallTo(site, gem) {
+				// the result mask: the local the call's result is stored into
+				if cv, ok := site.(ssa.Value); ok && cv.Referrers() != nil {
+					for _, ref := range *cv.Referrers() {
+						if st, ok := ref.(*ssa.Store); ok && st.Val == cv {
+							if al, ok := st.Addr.(*ssa.Alloc); ok {
+								maskCell = al
+							}
+						}
+					}
+				}
+				for _, a := range site.Common().Args {
+					if maskCell != nil {
+						break
+					}
+					if al, ok := a.(*ssa.Alloc); ok && typeName(deref(al.Type())) == "Mask" {
+						maskCell = al
+					}
+					if u, ok := a.(*ssa.UnOp); ok && u.Op == token.MUL {
+						if al, ok := u.X.(*ssa.Alloc); ok && typeName(deref(al.Type())) == "Mask" {
+							maskCell = al
+						}
+					}
 				}
 			}
 		}
@@ -231,7 +262,7 @@ func c05r3(p *Prog, r *Reporter) {
 			recv := call.Common().Args[0]
 			if _, fld, _, ok := loadedField(recv); ok && fld == "IsRelation" {
 				panicNotRel = true
-			} else if a, ok := recv.(*ssa.Alloc); ok && a.Comment == "mask" {
+			} else if a, ok := recv.(*ssa.Alloc); ok && (a == maskCell || maskCell == nil && typeName(deref(a.Type())) == "Mask") {
 				panicNoComp = true
 			}
 		}
@@ -595,9 +626,6 @@ func c05r8(p *Prog, r *Reporter) {
 				continue
 			}
 			arg := call.Common().Args[idx]
-			if !isTargetRole(arg) {
-				continue
-			}
 			// is the argument possibly an inherited target at this point?
 			res := cfg.runStateAt(fn, call)
 			name := p.FuncName(fn)
